@@ -141,6 +141,7 @@ Path64 gpPath(int nmin, int nmax, int64_t M, bool closedOp) {
   Path64 p;
   for (int attempt = 0; attempt < 30; ++attempt) {
     p = GEN::randomPath(nmin, nmax, M);
+    if (G::chance(25)) GEN::axisAlignSome(p, 50);   // exactly horizontal / vertical edges: parallel pattern and path edges, zero-area parallelograms
     if (p.size() <= 1) return p;
     if (closedOp && p.size() == 2) continue;
     Paths64 pp{p};
@@ -168,6 +169,18 @@ Case gen() {
     c.p["pattern"] = {gpPath(3, 5, 3000, true)};
     c.p["path"] = {GEN::ring((int)G::range(130, 300), G::sym(1000), G::sym(1000), 0.97e5, 1e5, G::coin())};
     ST.count("very_long_path");
+  }
+  if (G::chance(5)) {
+    // pattern an exact axis-parallel square or a square centred on the origin (point-symmetric): Sum and Diff coincide there
+    int64_t a = G::range(4, std::max<int64_t>(5, Mp));
+    int64_t ox = G::coin() ? -a : G::sym(Mp), oy = ox == -a ? -a : G::sym(Mp);
+    c.p["pattern"] = {Path64{Point64(ox, oy), Point64(ox + 2 * a, oy), Point64(ox + 2 * a, oy + 2 * a), Point64(ox, oy + 2 * a)}};
+    if (G::coin()) std::reverse(c.p["pattern"][0].begin(), c.p["pattern"][0].end());
+    ST.count("square_pattern");
+  }
+  if (G::chance(3)) {   // at the top of the allowed magnitude: sums reach 2^40
+    int64_t T = (int64_t(1) << 39) - 2 * M - 10;
+    if (T > 0) { for (auto& q : c.p["path"][0]) { q.x += T; q.y -= T; } ST.count("path_translated_to_2^39"); }
   }
   c.i["closed"] = closed;
   c.i["dp"] = G::chance(70) ? -1 : G::range(0, 4);
